@@ -22,3 +22,12 @@ Theorem C04_reset_after_any_history : C04_reset_after_any_history_stmt.
 Proof. exact C04_reset_after_any_history_proof. Qed.
 Print Assumptions C04_reset_after_any_history.
 
+(* the boolean monitor that judges implementation steps for this property is passed by every
+   step of the model (so the monitor demands nothing the theorems do not) *)
+From NasimV Require Import Monitors.
+From NasimV.proofs Require Import PMonitors.
+Theorem monitor_C04_sound :
+  forall sc st a k, wf_scenario sc = true -> wf_state sc st = true -> act_ok sc a ->
+    ok_C04 sc (model_rec sc st a k) = true.
+Proof. intros sc st a k WF WS A. exact (model_passes_C04 sc st a k WF WS A). Qed.
+Print Assumptions monitor_C04_sound.
